@@ -27,7 +27,10 @@ CONF = {
     2: {(0x1111, 0x22): b"\x44", (0x0620, 0x07): b"\x04", (0x0620, 0x06): b"OnlyName"},
     3: {(0x2222, 0x01): bytes(20), (0x0202, 0x82): CODE3, (0x0620, 0x01): (77).to_bytes(2, "big"), (0x0620, 0x04): b"\x07"},
 }
-UPD = {1: (CODE1, 9), 3: (CODE3, 7)}       # security code and identifier version each configuration states
+CODE4 = b"\x00\x11\x22\x33\x44\x55\x66\x00"
+CONF[4] = {(0x3333, 0x03): b"\x07\x07", (0x0202, 0x82): CODE4, (0x0620, 0x01): (4711).to_bytes(2, "big"), (0x0620, 0x05): (12).to_bytes(1, "big"),
+           (0x0620, 0x02): (3).to_bytes(1, "big"), (0x0620, 0x07): b"\x00", (0x0620, 0x06): b"VersionZero"}
+UPD = {1: (CODE1, 9), 3: (CODE3, 7), 4: (CODE4, 0)}       # security code and identifier version each configuration states
 
 
 def cfg(sw, mf, ms):
@@ -48,7 +51,7 @@ class Gamma:
             g = Bf3File({})
             g.derive_comments_from_config(conf)
             self.cm[c] = dict(g.comments)
-        if len({v[1] for v in self.cfg_blob.values()}) != 3:
+        if len({v[1] for v in self.cfg_blob.values()}) != len(CONF):
             raise MachineryError("configurations are not distinguishable")
 
 
@@ -173,7 +176,7 @@ def run(tier):
         res = tlc.require_ok(tlc.run(os.path.join(SPEC, "ObjModel.tla"), cfg("FALSE", 2, depth), os.path.join(wd, "mc"), workers=16,
                                      timeout=1800, dump=dump), "ObjModel")
         rep.add_mc("ObjModel: all operation sequences up to %d steps over 3 configurations, <= 2 firmware components" % depth, res,
-                   {"MaxSteps": depth, "MaxFw": 2, "operations": 16})
+                   {"MaxSteps": depth, "MaxFw": 2, "operations": 22})
         if tier == "thorough":
             res7 = tlc.require_ok(tlc.run(os.path.join(SPEC, "ObjModel.tla"), cfg("FALSE", 3, 8), os.path.join(wd, "mc8"), workers=16, timeout=2400), "ObjModel/8")
             rep.add_mc("ObjModel: depth 8, <= 3 firmware components (MC only)", res7, {"MaxSteps": 8, "MaxFw": 3})
